@@ -334,6 +334,8 @@ func (m *MonChecks) judgePayment(s *Sim, i int, n *c21Note, meta *TxMeta, res *a
 			continue
 		}
 		switch {
+		case k == "msig/"+red.String() && cur[k] == "exists":
+			// the snapshot's "address is taken" flag: the redeemer's first transaction (nonce 0 -> 1)
 		case route == "bancor" && (k == "coin/"+gas+"/volume" || k == "coin/"+gas+"/reserve"):
 		case route == "pool" && (k == "pool/0-"+gas || strings.HasPrefix(k, "order/")):
 		case route == "pool" && strings.HasPrefix(k, "bal/") && strings.HasSuffix(k, "/"+gas) && BI(cur[k]).Cmp(BI(m.prev[k])) > 0:
